@@ -122,9 +122,9 @@ Lemma transfer_all_sound : forall g Q R q,
     exists a, g q = Some a /\ (forall x, In x a -> In x R).
 Proof.
   induction Q as [|q0 Q IH]; intros R q H Hq; [destruct Hq|].
-  cbn in H. destruct (g q0) as [a|] eqn:Hg; [|discriminate].
+  cbn [transfer_all] in H. destruct (g q0) as [a|] eqn:Hg; [|discriminate].
   destruct (transfer_all g Q) as [b|] eqn:Hb; [|discriminate].
-  inversion H; subst. destruct Hq as [->|Hq].
+  injection H as <-. destruct Hq as [->|Hq].
   - exists a. split; [assumption|]. intros x Hx. apply union_st_In. now left.
   - destruct (IH b q eq_refl Hq) as (a' & Ha' & Hsub). exists a'. split; [assumption|].
     intros x Hx. apply union_st_In. right. now apply Hsub.
@@ -137,7 +137,7 @@ Proof.
   intros eo first rest q oF qs s H Hs. destruct oF as [F|]; cbn [first_rest_check] in H; [|discriminate].
   destruct (first_ok_b first q F) eqn:Hf; [|discriminate].
   destruct (transfer_all (set_transfer rest) F) as [R|] eqn:HR; [|discriminate].
-  inversion H; subst. clear H. destruct s as [|c r]; cbn in Hs.
+  injection H as <-. destruct s as [|c r]; cbn [first_rest] in Hs.
   - subst eo. apply neutral_to_nil. apply union_st_In. left. now left.
   - apply andb_true_iff in Hs. destruct Hs as [Hc Hr].
     destruct (checked_step first q F c Hf Hc) as (q1 & Hs1 & Hin).
@@ -391,3 +391,7 @@ Proof.
   destruct (lines_sound s Hs) as (e & H1 & H2). exists QBetween, e.
   repeat split; cbn; auto. intro H. now elim H.
 Qed.
+
+(* the tabulated version is the same function (44 evaluations) *)
+Lemma site_transfer_fast_eq : forall c q, site_transfer_fast c q = site_transfer c q.
+Proof. destruct c; try reflexivity; destruct q; vm_compute; reflexivity. Qed.
